@@ -254,6 +254,12 @@ where
         }
     }
 
+    /// Verification hook: read access to the transform controller.
+    #[cfg(feature = "_verif_hooks")]
+    pub fn verif_controller(&self) -> &C {
+        &self.delegate.transform_controller
+    }
+
     fn flush_encoding_change(&mut self) {
         if let Some(&next_encoding) = self.next_encoding.get()
             && next_encoding != self.encoding
